@@ -3,10 +3,25 @@ open Drv
 (*#include zconv*)
 (* rationals: input "num/den" (decimal, OCaml int range); output "num/den" with binary digits ("-" sign) so that
    no size limit applies *)
+(* big numbers: a token starting with 'b' (after an optional '-') is in binary digits, any size *)
+let pos_of_bin s =
+  let n = String.length s in
+  let rec go acc i = if i >= n then acc else go (if s.[i] = '1' then XI acc else XO acc) (i + 1) in
+  let rec first i = if i >= n then failwith "zero" else if s.[i] = '1' then i else first (i + 1) in
+  let f = first 0 in go XH (f + 1)
+let z_of_tok t =
+  let neg = String.length t > 0 && t.[0] = '-' in
+  let u = if neg then String.sub t 1 (String.length t - 1) else t in
+  if String.length u > 0 && u.[0] = 'b' then
+    let d = String.sub u 1 (String.length u - 1) in
+    if String.contains d '1' then (if neg then Zneg (pos_of_bin d) else Zpos (pos_of_bin d)) else Z0
+  else z_of_int (int_of_string t)
+let pos_of_tok t =
+  if String.length t > 0 && t.[0] = 'b' then pos_of_bin (String.sub t 1 (String.length t - 1)) else pos_of_int (int_of_string t)
 let q_of_string s =
   match String.split_on_char '/' s with
-  | [a; b] -> { qnum = z_of_int (int_of_string a); qden = pos_of_int (int_of_string b) }
-  | [a] -> { qnum = z_of_int (int_of_string a); qden = XH }
+  | [a; b] -> { qnum = z_of_tok a; qden = pos_of_tok b }
+  | [a] -> { qnum = z_of_tok a; qden = XH }
   | _ -> failwith "badq"
 let rec bin_of_pos p = match p with XH -> "1" | XO q -> bin_of_pos q ^ "0" | XI q -> bin_of_pos q ^ "1"
 let bin_of_z = function Z0 -> "0" | Zpos p -> bin_of_pos p | Zneg p -> "-" ^ bin_of_pos p
